@@ -123,3 +123,218 @@ def control_deps(fn):
                 if x not in pdom[a] or x == a:
                     cd[x].add(a)
     return cd, pdom
+
+
+# ------------------------------------------------------------------------------------------------
+# taint / non-interference (data + control dependence), field-based memory, context-insensitive
+
+def mem_key(fn, v, depth=0):
+    """abstract location a pointer operand denotes: ('field', struct, idx) | ('alloca', fn, name) |
+    ('param', fn, name) | ('global', name) | ('unknown',)"""
+    if v[0] == 'global':
+        return ('global', v[1])
+    if v[0] == 'cexpr':
+        return mem_key(fn, v[2][0][1], depth + 1)
+    if v[0] != 'local' or depth > 12:
+        return ('unknown',)
+    d = fn.defs.get(v[1])
+    if d is None:
+        return ('param', fn.name, v[1])
+    if d.op == 'alloca':
+        return ('alloca', fn.name, d.res)
+    if d.op == 'getelementptr':
+        st = d.attrs['srcty']
+        idx = [x[1] for x in d.ops[1:]]
+        if st[0] == 'named' and len(idx) >= 2 and idx[0] == ('int', 0) and idx[1][0] == 'int':
+            m = fn.module
+            rt = m.resolve(st)
+            if rt[0] == 'struct':
+                return ('field', st[1], idx[1][1])
+        return mem_key(fn, d.ops[0][1], depth + 1)
+    if d.op in ('bitcast', 'phi', 'select'):
+        if d.op == 'bitcast':
+            # a bitcast to a named struct pointer followed by a field gep is handled by the gep case;
+            # the bitcast itself denotes whatever its operand denotes
+            return mem_key(fn, d.ops[0][1], depth + 1)
+        return ('unknown',)
+    if d.op == 'load':
+        return ('unknown',)
+    return ('unknown',)
+
+
+class Taint:
+    def __init__(self, mod, is_source, result_args=None, skip_fns=()):
+        """is_source(fn, ins) -> bool for loads; result_args: callee name -> list of argument indices whose
+        taint flows to the call result (default: all), for externals"""
+        self.mod = mod
+        self.is_source = is_source
+        self.result_args = result_args or {}
+        self.skip = set(skip_fns)
+        self.tv = set()        # (fn, ssa)
+        self.tparam = set()    # (fn, index)
+        self.tmem = set()      # memory keys
+        self.tret = set()      # function names with tainted return
+        self.tctl = {}         # fn -> set of blocks under tainted control
+        self.tctx = set()      # functions only reached under tainted control (at some call site)
+        self.why = {}          # (fn, ssa) or key -> reason text
+        self.cd = {}
+        self.um = {}
+
+    def _tainted(self, fn, v):
+        if v[0] == 'local':
+            if (fn.name, v[1]) in self.tv:
+                return True
+            for i, (t, pn) in enumerate(fn.params):
+                if pn == v[1] and (fn.name, i) in self.tparam:
+                    return True
+            return False
+        if v[0] == 'cexpr':
+            return any(self._tainted(fn, x[1]) for x in v[2])
+        return False
+
+    def run(self):
+        mod = self.mod
+        fns = [f for n, f in mod.functions.items() if n not in self.skip]
+        for f in fns:
+            self.cd[f.name] = control_deps(f)[0]
+            self.tctl[f.name] = set()
+        changed = True
+        rounds = 0
+        while changed:
+            changed = False
+            rounds += 1
+            for f in fns:
+                tc = self.tctl[f.name]
+                for ins in f.instructions():
+                    # data flow
+                    t = False
+                    why = None
+                    if ins.op == 'load':
+                        if self.is_source(f, ins):
+                            t, why = True, 'source load at %s' % ins.loc()
+                        else:
+                            k = mem_key(f, ins.ops[0][1])
+                            if k in self.tmem or (k[0] == 'unknown' and ('unknown',) in self.tmem):
+                                t, why = True, 'load of tainted memory %r at %s' % (k, ins.loc())
+                            elif k[0] == 'param' and self._tainted(f, ins.ops[0][1]):
+                                t, why = False, None
+                    elif ins.op in ('call', 'invoke'):
+                        cn = callee_name(ins)
+                        callee = mod.functions.get(cn) if cn else None
+                        if callee is not None and cn not in self.skip:
+                            for i, (ty, v) in enumerate(ins.ops):
+                                if self._tainted(f, v) and (cn, i) not in self.tparam:
+                                    self.tparam.add((cn, i))
+                                    self.why[('param', cn, i)] = 'argument %d of call at %s' % (i, ins.loc())
+                                    changed = True
+                            if (ins.block.name in tc or f.name in self.tctx) and cn not in self.tctx:
+                                self.tctx.add(cn)
+                                self.why[('ctx', cn)] = 'called under tainted control at %s' % ins.loc()
+                                changed = True
+                            if cn in self.tret:
+                                t, why = True, 'result of %s (tainted return) at %s' % (cn, ins.loc())
+                        elif cn is not None:
+                            idxs = self.result_args.get(cn)
+                            for i, (ty, v) in enumerate(ins.ops):
+                                if idxs is not None and i not in idxs and not (idxs and idxs[-1] == -1 and i >= idxs[-2]):
+                                    continue
+                                if self._tainted(f, v):
+                                    t, why = True, 'result of external %s with tainted argument at %s' % (cn, ins.loc())
+                            # externals that write through their first argument (memmove/memset/snprintf) are sinks of
+                            # content only; content is not tracked here
+                    elif ins.op == 'store':
+                        if self._tainted(f, ins.ops[0][1]) or ins.block.name in tc or f.name in self.tctx:
+                            k = mem_key(f, ins.ops[1][1])
+                            if k not in self.tmem:
+                                self.tmem.add(k)
+                                self.why[k] = ('store of tainted value at %s' if self._tainted(f, ins.ops[0][1])
+                                               else 'store under source-dependent control at %s') % ins.loc()
+                                changed = True
+                    elif ins.op == 'phi':
+                        for (v, lb) in ins.attrs['incoming']:
+                            if self._tainted(f, v):
+                                t, why = True, 'phi operand at %s' % ins.loc()
+                        if not t:
+                            # a phi merges values selected by the branches its predecessors depend on
+                            for (v, lb) in ins.attrs['incoming']:
+                                if lb in tc:
+                                    t, why = True, 'phi selects under tainted control at %s' % ins.loc()
+                    elif ins.op == 'ret':
+                        if (ins.ops and self._tainted(f, ins.ops[0][1])) or ins.block.name in tc:
+                            if f.name not in self.tret and f.ret != ('void',):
+                                self.tret.add(f.name)
+                                self.why[('ret', f.name)] = 'tainted return at %s' % ins.loc()
+                                changed = True
+                    elif ins.op in ('br', 'switch'):
+                        if ins.ops and self._tainted(f, ins.ops[0][1]):
+                            for b, deps in self.cd[f.name].items():
+                                if ins.block.name in deps and b not in tc:
+                                    tc.add(b)
+                                    self.why[('ctl', f.name, b)] = 'branch on tainted value at %s' % ins.loc()
+                                    changed = True
+                    else:
+                        for (ty, v) in ins.ops:
+                            if self._tainted(f, v):
+                                t, why = True, 'operand of %s at %s' % (ins.op, ins.loc())
+                                break
+                    if t and ins.res is not None and (f.name, ins.res) not in self.tv:
+                        self.tv.add((f.name, ins.res))
+                        self.why[(f.name, ins.res)] = why
+                        changed = True
+            if rounds > 200:
+                break
+        return self
+
+    def explain(self, fn, v, depth=0):
+        """chain of reasons for a tainted operand"""
+        out = []
+        seen = set()
+        cur = v
+        f = fn
+        for _ in range(12):
+            if cur[0] != 'local':
+                break
+            key = (f.name, cur[1])
+            if key in seen:
+                break
+            seen.add(key)
+            w = self.why.get(key)
+            if not w:
+                for i, (t, pn) in enumerate(f.params):
+                    if pn == cur[1] and (f.name, i) in self.tparam:
+                        out.append('parameter %d of %s: %s' % (i, f.name, self.why.get(('param', f.name, i), '')))
+                break
+            out.append('%%%s in %s: %s' % (cur[1], f.name, w))
+            d = f.defs.get(cur[1])
+            if d is None:
+                break
+            nxt = None
+            for (t, x) in d.ops:
+                if x[0] == 'local' and self._tainted(f, x):
+                    nxt = x
+                    break
+            if nxt is None:
+                break
+            cur = nxt
+        return out
+
+    def check_sinks(self, is_sink):
+        """is_sink(fn, ins) for store instructions -> list of (ins, reason list)"""
+        out = []
+        n = 0
+        for f in self.mod.functions.values():
+            if f.name in self.skip:
+                continue
+            for ins in f.instructions():
+                if ins.op == 'store' and is_sink(f, ins):
+                    n += 1
+                    reasons = []
+                    if self._tainted(f, ins.ops[0][1]):
+                        reasons.append('stored value depends on a source:')
+                        reasons += ['  ' + x for x in self.explain(f, ins.ops[0][1])]
+                    if ins.block.name in self.tctl[f.name]:
+                        reasons.append('store is control dependent on a source: %s' % self.why.get(('ctl', f.name, ins.block.name), ''))
+                    if f.name in self.tctx:
+                        reasons.append('function %s is reached under source-dependent control: %s' % (f.name, self.why.get(('ctx', f.name), '')))
+                    out.append((ins, reasons))
+        return out, n
